@@ -22,11 +22,12 @@ from vlib.runner import Violation, Discard, HarnessError, load_known, match_know
 
 ID = "C16"
 RULE = (
-    "cases = generated ModelSpecs (1-3 populations, transfers, interactions, sparse/dense years, assumptions, assumption+years, uncertainties) with 1-3 generated "
-    "programs (targets, spend/unit cost/capacity/saturation/coverage series, outcomes with coverage and impact interactions) x kind in {rt-books, rt-framework, binary, "
+    "cases = generated ModelSpecs (1-3 populations, transfers, interactions, sparse/dense/weekly/daily time axes with values in neighbouring columns, assumptions, assumption+years, "
+    "uncertainties; population and program names that contain each other) with 1-4 generated programs (targets, spend/unit cost/capacity/saturation/coverage series, outcomes with "
+    "coverage interactions and explicit impact interactions between arbitrary subsets, coverage overwrites) x kind in {rt-books, rt-framework, binary, "
     "stateful (<=4 operations from copy/add-remove population/add-remove program/add-remove parameter/add-remove transfer/zero-uncertainty sample/reconcile/load "
     "calibration), calib (edited calibration files)} plus the library files as static cases; oracle = explicit content projections (rtol 1e-14, exact on the second "
-    "trip), paired simulations (1e-9; bitwise for binary files and second trips), live object vs object rebuilt from its own export after every operation; "
+    "trip), paired simulations (1e-9; bitwise for binary files and second trips), live object vs object rebuilt from its own export after every operation (simulation and direct evaluation of every program effect at joint coverages 1/0.6/0.3); "
     "non-trivial = (round trips) the objects contain an assumption, a sparse series and an uncertainty, (stateful) >= 1 editing operation was applied before the "
     "round trip, (calib) the file has an unknown or a missing entry; distinct = distinct case hash"
 )
@@ -67,7 +68,7 @@ def _round15(x):
     return x
 
 
-OP_KINDS = ["remove_program", "reconcile", "remove_pop", "add_pop", "add_program", "remove_par", "add_par", "calib", "sample", "copy", "reconcile", "add_transfer", "remove_transfer"]
+OP_KINDS = ["remove_program", "remove_program", "reconcile", "remove_pop", "add_pop", "add_program", "remove_par", "add_par", "calib", "sample", "copy", "reconcile", "add_transfer", "remove_transfer"]
 
 
 @st.composite
@@ -122,8 +123,17 @@ def cases(draw, tier):
     spec = draw(gen_model.model_specs(prof))
     zero_sigma = kind == "stateful"
     sig = SIG_ZERO if zero_sigma else SIG_RT
-    feats = H.decorate_data(draw, spec, sig, dense=draw(st.booleans()))
-    H.add_programs(draw, spec, sig, min_progs=2 if kind == "stateful" else 1)
+    fine = []
+    if rnd.random() < 0.35:
+        # weekly / daily / 0.01-0.02 year columns (neighbouring years closer than 1e-5 * year)
+        step = rnd.choice([1 / 52, 1 / 365, 0.01, 0.02, 0.005])
+        t0 = spec["settings"]["start"] + rnd.choice([0.0, -1.0, 0.5])
+        fine = [t0 + k * step for k in range(rnd.choice([3, 5, 8]))]
+    feats = H.decorate_data(draw, spec, sig, dense=draw(st.booleans()), fine_years=fine)
+    nested = rnd.random() < 0.5
+    H.add_programs(draw, spec, sig, min_progs=2 if kind == "stateful" else 1, nested_names=nested, fine_years=fine if rnd.random() < 0.5 else ())
+    if rnd.random() < 0.5:
+        H.rename_pops(spec, H.NESTED_POP_NAMES)
     exact = draw(st.sampled_from([True, True, True, True, False]))
     if exact:
         spec["data"] = _round15(spec["data"])
@@ -191,6 +201,9 @@ def _build(spec):
     try:
         b = build.build_all(spec)
         b["settings"] = b["P"].settings
+        for p in (spec.get("progs") or {}).get("progs", []):
+            if p.get("cov"):
+                build._fill_ts(b["progset"].programs[p["name"]].coverage, p["cov"])
         res = H.simulate(b["settings"], b["F"], b["ps"], b["progset"], b["instructions"])
     except HarnessError:
         raise
@@ -266,6 +279,15 @@ def _labels(case, extra=()):
     if "exact" in case:
         labs.append("numbers:16-digit-exact" if case["exact"] else "numbers:full-precision")
     labs += ["data:" + f for f in sorted(H.data_features(case["spec"]))]
+    pg = case["spec"].get("progs") or {}
+    if any(p["name"] in H.NESTED_PROG_NAMES for p in pg.get("progs", [])):
+        labs.append("names:nested-programs")
+        if any(len(c["progs"]) >= 3 and c.get("imp") for c in pg.get("covouts", [])):
+            labs.append("effects:3-programs-with-interactions")
+    if any((p if isinstance(p, str) else p["name"]) in H.NESTED_POP_NAMES.values() for p in case["spec"]["pops"]):
+        labs.append("names:nested-populations")
+    if (case["spec"].get("instr") or {}).get("coverage"):
+        labs.append("instructions:coverage-overwrites")
     labs += list(extra)
     return labs
 
@@ -313,6 +335,10 @@ def check_rt_books(case):
         v.flush()
     if v.items:
         v.flush()
+    if pg is not None:
+        pd_ = H.probe_diff(H.covout_probe(pg), H.covout_probe(pg2))
+        if pd_:
+            v.add("rt-books/behaviour/outcome-probe", "program effects of the re-read book evaluate differently (effect, coverage pattern, original, re-read): %r" % pd_[:3])
     try:
         arr1 = H.arrays(H.simulate(stg, F, ps2, pg2, ins))
     except Exception as e:
@@ -629,10 +655,11 @@ def apply_op(s, op, v):
         src = sc.dcp(s.ps)
         _load_edited(src, s.ps, op["edits"], v, "calib")
     elif k == "add_pop":
-        name = [n for n in ("px", "py", "pz", "pw") if n not in pops]
+        like = pops[i % len(pops)]
+        name = [n for n in (like + "x", "px", "py", "pz", "pw") if n not in pops]  # (a name that contains an existing name)
         if not name:
             raise Skip("no free population name")
-        name, like = name[0], pops[i % len(pops)]
+        name = name[0]
         s.D.add_pop(name, "Pop " + name)
         s.pg.add_pop(name, "Pop " + name)
         if op.get("fill"):
@@ -653,9 +680,7 @@ def apply_op(s, op, v):
         s.pg.remove_pop(name)
         s.ps = _new_parset(s, s.ps)
     elif k == "add_program":
-        name = [n for n in ("Pn", "Pm", "Pk") if n not in progs]
-        if not name:
-            raise Skip("no free program name")
+        name = [n for n in (progs[i % len(progs)] + "n", "Pn", "Pm", "Pk") if n not in progs]  # (a name that contains an existing name)
         name = name[0]
         s.pg.add_program(name, "Prog " + name)
         if op.get("fill"):
@@ -721,9 +746,7 @@ def apply_op(s, op, v):
         if len(pops) < 2:
             raise Skip("transfers need two populations")
         names = [t.code_name for t in s.D.transfers]
-        name = [n for n in ("trx", "try", "trz") if n not in names]
-        if not name:
-            raise Skip("no free transfer name")
+        name = [n for n in ((names[0] + "b") if names else "trx", "trx", "try", "trz") if n not in names]
         tdc = s.D.add_transfer(name[0], "Transfer " + name[0])
         a, b_ = pops[i % len(pops)], pops[(i + 1) % len(pops)]
         ts = at.TimeSeries(units=build.UNITS[op["units"]])
@@ -795,6 +818,10 @@ def check_state(s, v, after, exact_inputs):
     same &= _content(v, "progbook", H.proj_progset(s.pg), H.proj_progset(pg2), RTOL_CONTENT, "stateful/after-%s/content" % after)
     same &= _content(v, "calibration", H.proj_calibration(s.ps), H.proj_calibration(ps2), RTOL_CONTENT, "stateful/after-%s/content" % after)
     if len(v.items) > n0:
+        return "diverged"
+    pd_ = H.probe_diff(H.covout_probe(s.pg), H.covout_probe(pg2))
+    if pd_:
+        v.add("stateful/after-%s/behaviour" % after, "same visible content but program effects evaluate differently (effect, coverage pattern, live, rebuilt from export): %r" % pd_[:3])
         return "diverged"
     c = _cmp(live, arr2, same)
     if c and _ill_conditioned(s.stg, s.F, s.ps, s.pg, s.ins):
